@@ -76,6 +76,23 @@ pub fn judge(
                 inconclusive,
             };
         }
+        Outcome::Stalled => {
+            if w.expect.terminating {
+                out.push(v(
+                    "live:stalled-with-no-runnable-task",
+                    format!(
+                        "after {} instructions no task can run any more although main has not finished and no host call is pending",
+                        run.steps
+                    ),
+                ));
+            } else {
+                inconclusive = true;
+            }
+            return Judgement {
+                violations: out,
+                inconclusive,
+            };
+        }
         Outcome::Dropped | Outcome::Fault => {
             return Judgement {
                 violations: out,
